@@ -2,6 +2,7 @@ import Capella.Driver.Util
 import Capella.Model.Path
 import Capella.Model.Quote
 import Capella.Model.Http
+import Capella.Model.Symlink
 namespace Capella.Driver.Path
 open Lean Capella.Driver Capella.Path
 
@@ -44,6 +45,22 @@ def handle (op : String) (j : Json) : Except String Json := do
     let s ← j.getObjValAs? String "s"
     let safe ← getBool j "slash_safe"
     pure (jstr (Capella.Quote.quote safe (utf8 s)))
+  | "path.physical" =>
+    -- {"links": [[[parts…], "target"], …], "root": [parts…], "handler": h, "subdir": sd, "name": n, "fuel": k}
+    let linksJ ← j.getObjValAs? (Array Json) "links"
+    let links ← linksJ.toList.mapM (fun (e : Json) => do
+      let a ← e.getArr?
+      let loc ← fromJson? (α := Array String) (a[0]!)
+      let t ← (a[1]!).getStr?
+      pure (loc.toList.map String.toList, t.toList))
+    let root ← getStrList j "root"
+    let h ← handlerOf (← j.getObjValAs? String "handler")
+    let sd ← getStr j "subdir"
+    let n ← getStr j "name"
+    let fuel ← j.getObjValAs? Nat "fuel"
+    match physical links fuel root h sd n with
+    | some r => pure (jstrs r)
+    | none => pure (Json.str "ELOOP")
   | "http.request" =>
     let path ← getStr j "path"
     let sd ← getStr j "subdir"
